@@ -157,8 +157,11 @@ def optRes (s : OptMon) (tid : Nat) (opName : String) (a b : Nat) (res : String)
       | some r, some newv =>
         let s := { s with nTry := s.nTry + 1 }
         if okS == "1" then
-          let s := if e.op != "cas" || !e.ok || wX e.rd || wVer e.rd != r.ver then
-              s.flag s!"version: TryLock returned an owning guard without a CAS from a word of version {r.ver} (last step {e.op} on {e.rd})" else s
+          -- the granting step must be an atomic read-modify-write that read an X-free word of the guard's version
+          -- (which operation it is — CAS, fetch_or, … — is the implementation's business)
+          let rmw := (e.op == "cas" && e.ok) || ["fadd", "fsub", "for", "fand", "fxor", "xchg"].contains e.op
+          let s := if !rmw || wX e.rd || wVer e.rd != r.ver then
+              s.flag s!"version: TryLock returned an owning guard but its granting step ({e.op}) read word {e.rd}, not an exclusive-free word of version {r.ver}" else s
           if commitInWindow s r then
             s.flag s!"version: TryLock succeeded although an exclusive section was committed since version {r.ver} was obtained"
           else s
